@@ -107,6 +107,8 @@ NAME_SETS_OPTIONAL = [["BUILD", "BIN", "TOOL"], ["TOOL", "BIN", "BUILD"], ["BIN"
 PARG_LISTS = [["COUNT:2", "COUNT:3"], ["COUNT:2", "STEP:5", "COUNT:3"],
               ["COUNT:3", "STEP:10", "STEP:20", "COUNT:3"], ["TAG:a:b", "TAG:c,d", "COUNT:2"],
               ["LIST:1,2,3", "LIST:4,5", "TAG:x:y"], ["COUNT:1", "STEP:7", "COUNT:4", "STEP:3", "TAG:t"]]
+# ready queues (deques of instance names) of the throttle witnesses, as lists
+QUEUE_LISTS = [["sim_SIZE.20", "sim_SIZE.30", "sim_SIZE.40"]]
 # output roots of the real-CLI runs (below the scratch directory): whatever the file system allows
 CLI_ROOTS = ["plain", "bl ank dir", "par(en)s", "amp&semi;colon", "dol$lar$HOME", "qu'ote", 'dq"uote x',
              "star*q?[a]", "back\\slash`tick`"]
@@ -141,6 +143,19 @@ class Sched:
     job_name = {}        # job id -> instance name
     faulted = set()      # instance names that already had their one fault
     faults = None        # None | "hw" | "timeout" | "mixed"  (case key "faults")
+    refuse = None        # None | "crc" | [instance names]     (case key "refuse")
+
+
+def refused(name):
+    """case key "refuse": a list of instance names, or "crc" (a quarter of the
+    instances, chosen by a checksum of the name -- never by the hash seed)"""
+    import zlib
+    r = Sched.refuse
+    if not r:
+        return False
+    if r == "crc":
+        return zlib.crc32(name.encode("utf-8")) % 4 == 0
+    return name in r
 
 
 def fault_of(name):
@@ -184,6 +199,9 @@ def register_scripted():
             return True, sp, rp
 
         def submit(self, step, path, cwd, job_map=None, env=None):
+            if refused(str(step.real_name)):          # every attempt of this instance is refused
+                Sched.submitted.append("REFUSED " + str(step.real_name))
+                return SubmissionRecord(SubmissionCode.ERROR, 1)
             jid = str(Sched.next_job)
             Sched.next_job += 1
             Sched.submitted.append(str(step.real_name))
@@ -283,7 +301,8 @@ def stage_flags(case, root):
     cond, sdir = None, root
     try:
         study.setup_workspace()
-        study.configure_study(throttle=0, submission_attempts=1, restart_limit=case["rlimit"],
+        study.configure_study(throttle=int(case.get("throttle") or 0),
+                              submission_attempts=int(case.get("attempts") or 1), restart_limit=case["rlimit"],
                               use_tmp=bool(case.get("usetmp")), hash_ws=bool(case.get("hashws")),
                               dry_run=not case.get("real"))
         study.setup_environment()
@@ -309,6 +328,7 @@ def expand_once(case, root):
     ser = {"obs": None, "polls": [], "status": [], "scripts": [], "exc": ""}
     Sched.next_job, Sched.submitted, Sched.queries = 1, [], []
     Sched.job_name, Sched.faulted, Sched.faults = {}, set(), case.get("faults")
+    Sched.refuse = case.get("refuse")
     o, study, dag, cond, sdir = stage_flags(case, root)
     ser["obs"] = o
     if o.get("ok") and dag is not None:
@@ -328,7 +348,7 @@ def expand_once(case, root):
         ScriptAdapter.write_script = write_script
         cm, saved_sleep = None, None
         try:
-            cap = 3 * len(o["nodes"]) + 6
+            cap = (3 if not case.get("throttle") else 5) * len(o["nodes"]) + 6
             marks = [0]
             if cond is not None:
                 import maestrowf.conductor as cm
@@ -477,6 +497,8 @@ def probe_items():
         items.append(("set{%s}" % ",".join(ns), False))
     for k, ls in enumerate(PARG_LISTS):
         items.append(("set(%s)" % " ".join(ls), k < 2))
+    for ls in QUEUE_LISTS:
+        items.append(("set(%s)" % " ".join(ls), True))
     return items
 
 
@@ -487,7 +509,7 @@ def pick_seeds(n):
     both orders (for every key-set variant if possible); beyond that as many
     tie pairs / resource-key pairs as possible are ordered both ways."""
     import itertools
-    arg = json.dumps([TIE_PAIRS, KEYSETS, RES_KEYS, NAME_SETS + NAME_SETS_OPTIONAL, PARG_LISTS])
+    arg = json.dumps([TIE_PAIRS, KEYSETS, RES_KEYS, NAME_SETS + NAME_SETS_OPTIONAL, PARG_LISTS + QUEUE_LISTS])
     items = probe_items()
 
     def probe(seed):
@@ -906,7 +928,36 @@ def gen_cli(rng, k):
     roots = CLI_ROOTS[1:]
     off = rng.randrange(len(roots))
     c["cli"]["roots"] = ["plain"] + [roots[(off + j) % len(roots)] for j in range(5)]
+    sp = SPELLINGS[1:]
+    rng.shuffle(sp)
+    c["cli"]["spell"] = ["abs"] + sp          # process 0: an absolute -o; the others: some other spelling
+    c["cli"]["refs"] = True                   # the specification mentions $(OUTPUT_PATH) and $(SPECROOT)
     return c
+
+
+# how the SAME output root <d>/<variant>/st/out (and the specification) is spelled on the command line
+SPELLINGS = ["abs", "rel", "dot", "slash", "parent", "linkcwd"]
+
+
+def spell(d, variant, how):
+    """-> (-o argument, specification argument, cwd)"""
+    rel = os.path.join(variant, "st", "out")
+    if how == "rel":
+        return rel, "spec.yaml", d
+    if how == "dot":
+        return "./" + rel, "./spec.yaml", d
+    if how == "slash":
+        return rel + "/", "spec.yaml", d
+    if how == "parent":
+        cw = os.path.join(d, "cw", "x")
+        os.makedirs(cw, exist_ok=True)
+        return os.path.join("..", "..", rel), os.path.join("..", "..", "spec.yaml"), cw
+    if how == "linkcwd":        # a relative -o from a cwd that was entered through a symbolic link
+        lk = os.path.join(os.path.dirname(d), os.path.basename(d) + ".lnk")
+        if not os.path.lexists(lk):
+            os.symlink(d, lk)
+        return rel, "spec.yaml", lk
+    return os.path.join(d, rel), os.path.join(d, "spec.yaml"), d
 
 
 def cli_spec_text(case):
@@ -921,11 +972,24 @@ def cli_spec_text(case):
         sim = 'echo "simulate $(SIZE)%s" > sim.out' % tag
         post = ("exit 3" if o.get("fail") else "echo post $(SIZE) > post.out")
         rep = "echo done > report.txt"
+    env = None
+    if o.get("refs"):
+        if o["dry"]:
+            sim += " ; cp $(SHARED)/in.dat $(OUTPUT_PATH)/all ; $(TOOLS)/prep $(SPECROOT)/data"
+            rep += " ; tar cf $(OUTPUT_PATH)/../bundle.tar $(OUTPUT_PATH) $(ARCHIVE)"
+            env = {"variables": {"SHARED": "$(OUTPUT_PATH)/shared", "PLAIN": "7"},
+                   "labels": {"TOOLS": "$(SPECROOT)/tools", "ARCHIVE": "$(SHARED)/archive-$(PLAIN)"}}
+        else:                   # executed: the references stay in comments
+            sim += "\n# inputs: $(SPECROOT)/data -> $(OUTPUT_PATH)/all"
+            rep += "\n# bundle of $(OUTPUT_PATH)"
     doc = {"description": {"name": "sweep", "description": "C11 command-line repeatability"},
            "study": [{"name": "sim", "description": "one size", "run": {"cmd": sim}},
                      {"name": "post", "description": "post-process one size", "run": {"cmd": post, "depends": ["sim"]}},
                      {"name": "side", "description": "independent", "run": {"cmd": "echo side > side.out"}},
                      {"name": "report", "description": "gather", "run": {"cmd": rep, "depends": ["post_*", "side"]}}]}
+    if env:
+        doc["env"] = env
+        doc["study"][0]["run"]["restart"] = "resume --from $(OUTPUT_PATH)/checkpoints --tools $(TOOLS)"
     if not o["pgen"]:
         doc["global.parameters"] = {"SIZE": {"values": [10, 20, 30], "label": "SIZE.%%"},
                                     "ITER": {"values": [1, 2, 3], "label": "ITER.%%"}}
@@ -948,15 +1012,15 @@ def parse_status_rows(text):
 def cli_once(job):
     """one `maestro run` child process; the expansion and the outcome as seen from outside"""
     from harness import e2e
-    case, seed, variant, d = job
+    case, seed, variant, d, how = job
     o = case["cli"]
     os.makedirs(d, exist_ok=True)
-    spec = os.path.join(d, "spec.yaml")
-    with open(spec, "w") as f:
+    with open(os.path.join(d, "spec.yaml"), "w") as f:
         f.write(cli_spec_text(case))
     root = os.path.join(d, variant, "st", "out")
     os.makedirs(os.path.dirname(root), exist_ok=True)
-    argv = ["run", "-fg", "-y", "-s", "1", "--attempts", "1", "-o", root]
+    oarg, spec, cwd = spell(d, variant, how)
+    argv = ["run", "-fg", "-y", "-s", "1", "--attempts", "1", "-o", oarg]
     if o["dry"]:
         argv.append("--dry")
     if o.get("hashws"):
@@ -969,7 +1033,7 @@ def cli_once(job):
         for a in o["pargs"]:
             argv += ["--pargs", a]
     argv.append(spec)
-    rc, out = e2e.launch("maestro", argv, d, {"PYTHONHASHSEED": seed, "E2E_POLL_SLEEP": "1", "E2E_MAX_POLLS": "60"},
+    rc, out = e2e.launch("maestro", argv, cwd, {"PYTHONHASHSEED": seed, "E2E_POLL_SLEEP": "1", "E2E_MAX_POLLS": "60"},
                          timeout=240)
     ser = {"obs": {"ok": False, "err": 7}, "polls": [], "status": [], "scripts": [], "exc": "rc=%d" % rc}
     try:
@@ -996,7 +1060,8 @@ def cli_once(job):
     if rc not in (0, 2, 3):
         ser["exc"] += " | " + " ".join(out.replace(root, "/R").split())[-300:]
     shutil.rmtree(os.path.join(d, variant), ignore_errors=True)
-    return replace_root(ser, root)
+    # modulo the ABSOLUTE root (and the absolute directory of the specification = $(SPECROOT))
+    return replace_root(replace_root(ser, root), d, "/S")
 
 
 def run_cli(cases, procs, tag):
@@ -1008,10 +1073,11 @@ def run_cli(cases, procs, tag):
     jobs, plist = [], []
     for i, case in enumerate(cases):
         roots = case["cli"].get("roots") or CLI_ROOTS
-        pp = [(s, roots[k % len(roots)]) for k, (s, _) in enumerate(procs)]
+        sp = case["cli"].get("spell") or ["abs"]
+        pp = [(s, roots[k % len(roots)] + " [-o:" + sp[k % len(sp)] + "]") for k, (s, _) in enumerate(procs)]
         plist.append(pp)
-        for k, (s, v) in enumerate(pp):
-            jobs.append((case, s, v, os.path.join(work, "c%d" % i, "p%d" % k)))
+        for k, (s, _) in enumerate(procs):
+            jobs.append((case, s, roots[k % len(roots)], os.path.join(work, "c%d" % i, "p%d" % k), sp[k % len(sp)]))
     res = e2e.pmap(cli_once, jobs)
     out, n = [], 0
     for pp in plist:
@@ -1028,7 +1094,7 @@ def cross_only(case):
 
 
 def case_key(case):
-    return json.dumps({k: case.get(k) for k in ("rlimit", "params", "steps", "hashws", "usetmp", "adapter", "via", "real", "faults", "env", "cli")},
+    return json.dumps({k: case.get(k) for k in ("rlimit", "params", "steps", "hashws", "usetmp", "adapter", "via", "real", "faults", "env", "cli", "throttle", "attempts", "refuse")},
                       sort_keys=True, default=str)
 
 
@@ -1063,6 +1129,10 @@ def generate(rng, tier):
                 for st in c["steps"]:
                     if rng.random() < 0.7 and not st["run"].get("restart"):
                         st["run"]["restart"] = "echo again"
+            if rng.random() < 0.35:        # a throttle, and a scheduler that refuses some instances for all attempts
+                c["throttle"] = rng.choice([1, 1, 2, 3])
+                c["attempts"] = rng.choice([1, 2])
+                c["refuse"] = "crc"
     n_cli = 14 if quick else 60
     return cases + gen + [gen_cli(rng, k) for k in range(n_cli)]
 
@@ -1128,6 +1198,10 @@ def evaluate(ck, cases, procs, tag="C11"):
     for i in idx + hidx:
         pr = procs_of[i]
         d = cross_diff(sers[i], pr)
+        if d is not None and known_dollar_root(cases[i], sers[i], pr):
+            verdicts[i] = "known"
+            detail[i] = {"known": "K-C11-dollar-root", "where": d[1], "processes": [list(x) for x in pr]}
+            continue
         if d is not None:
             k, where = d
             detail.setdefault(i, {})["diff"] = {
@@ -1137,6 +1211,22 @@ def evaluate(ck, cases, procs, tag="C11"):
             detail[i]["processes"] = [list(x) for x in pr]
             verdicts[i] = "violation"
     return sers, verdicts, detail, problems, errs
+
+
+def known_dollar_root(case, ss, pr):
+    """signature of the known finding K-C11-dollar-root: an output root that contains '$' is
+    classified as a LABEL by StudyEnvironment.add (its value 'contains a token'), so it is applied
+    in the label pass, BEFORE the substitutions; a variable whose value mentions $(OUTPUT_PATH)
+    then leaves that token unresolved.  Only: a CLI case whose specification has such a variable,
+    every process that differs from the first has '$' in its root, all others agree, and the
+    differing text still shows the token."""
+    if not (case.get("cli") and case["cli"].get("refs") and case["cli"].get("dry")):
+        return False
+    differing = [k for k in range(1, len(ss)) if ss[k] != ss[0]]
+    if not differing or "$" in pr[0][1]:
+        return False
+    return all("$" in pr[k][1] and "$(OUTPUT_PATH)" in json.dumps(ss[k]) for k in differing) \
+        and "$(OUTPUT_PATH)" not in json.dumps(ss[0])
 
 
 def model_text(case):
@@ -1202,7 +1292,11 @@ def run(ck):
             ck.sample({"case": clean(case), "impl_first_process": {"polls": x["polls"], "status": x["status"][:6],
                                                                    "names": [n["name"] for n in o["nodes"]]}}, limit=3)
         v = verdicts[i]
-        if v == "violation":
+        if v == "known":
+            ck.known_hit("K-C11-dollar-root", "an output root containing '$' is treated as a label: a variable whose value "
+                         "mentions $(OUTPUT_PATH) keeps the token unresolved in the scripts (witness "
+                         "corpus/C11/known_dollar_root_output_path.json)")
+        elif v == "violation":
             ck.violation(violation_what(detail.get(i)), violation_record(case, procs, detail.get(i)))
         elif v == "mismatch":
             ck.mismatch("model and implementation disagree: %s" % json.dumps(detail.get(i)), clean(case),
@@ -1233,13 +1327,18 @@ def run(ck):
                       "--pgen with --pargs lists holding repeated keys with different values, several keys, values with ':' "
                       "and ',' (or global.parameters), --dry (expansion: directory tree, every script's text, status listing, "
                       "exit code) or a real run with the LOCAL adapter (additionally the final step states; one step may fail), "
-                      "compared across processes only; "
+                      "compared across processes only; the same output root is SPELLED differently in the processes (absolute; "
+                      "relative; ./relative; with a trailing slash; ../../x from a sub-directory; relative from a cwd entered "
+                      "through a symbolic link) and the specifications mention $(OUTPUT_PATH) and $(SPECROOT) in cmd, restart, "
+                      "env variables and labels: scripts are compared modulo the ABSOLUTE root and specification directory; "
                       "25%% of the generated library cases are staged with hash_ws=True and 15%% with use_tmp=True; 35%% are staged and "
                       "polled by the Conductor (initialize + monitor_study, sleep stubbed; status.csv where the Conductor "
                       "writes it); 30%% are REAL runs against a scripted scheduler adapter registered in the plug-in registry "
                       "(every step scheduled, answers in the order queried; every job reported FINISHED one poll after "
                       "submission, or -- case key faults = hw/timeout/mixed -- first ONE HWFAILURE (re-queue) / TIMEDOUT "
-                      "(restart) per instance, for all jobs in flight in that poll together): the sequence of submitted instance names over all polls is compared across processes only; "
+                      "(restart) per instance, for all jobs in flight in that poll together; a third of them under a submission "
+                      "throttle 1-3 with a scheduler that REFUSES a quarter of the instances for all attempts while others "
+                      "are still queued): the sequence of submitted instance names over all polls is compared across processes only; "
                       "one root is reached through a symbolic link, one is spelled with '..' and '//'; the output roots "
                       "contain blanks, quote, plus, comma and non-ASCII characters and are replaced exactly as given; every "
                       "specification is staged and dry-run (local adapter, scripts and status.csv written) in %d fresh "
@@ -1299,7 +1398,7 @@ def replay(ck, path):
     if not cross_only(case):
         print("model:", model_text(case))
     print("verdict:", verdicts[0], detail.get(0), problems[:1], errs[:1])
-    return 0 if verdicts[0] == "ok" and not problems and not errs else 1
+    return 0 if verdicts[0] in ("ok", "known") and not problems and not errs else 1
 
 
 if __name__ == "__main__":
